@@ -23,7 +23,6 @@ import (
 	"verifh/vh"
 )
 
-const knownSig = "C25-create-inactive-scheduled"
 
 // ---- case format ----
 
@@ -391,11 +390,12 @@ func run(w *vh.W, c *jcase) {
 	ops := make([]string, len(c.Ops))
 	obs := make([]string, len(c.Obs))
 	sig := ""
+	inactiveCreate := false
 	statusChanges, mixed := 0, false
 	for i, o := range c.Ops {
 		ops[i] = "(" + opTerm(o) + ")"
 		if o.Op == "create" && o.Status != nil && *o.Status == "inactive" {
-			sig = knownSig // shape: the history creates a task with status inactive
+			inactiveCreate = true // former finding shape (fixed in /repo da7c7e4fac): still generated, no longer tolerated
 		}
 		if o.Op == "update" && o.Status != nil {
 			statusChanges++
@@ -417,7 +417,7 @@ func run(w *vh.W, c *jcase) {
 	t := fmt.Sprintf("{| c_ops := %s; c_obs := %s |}", vh.List(ops), vh.List(obs))
 	w.Add(t, c, mixed || statusChanges > 0, sig)
 	w.Count("len", fmt.Sprint(len(c.Ops)))
-	w.Count("inactive_create", fmt.Sprint(sig != ""))
+	w.Count("inactive_create", fmt.Sprint(inactiveCreate))
 }
 
 func sp(s string) *string { return &s }
